@@ -154,6 +154,19 @@ CO_ERR COSdoResponse(CO_SDO *srv)
         return (result);
     }
 
+    /* an initiate request during a running segmented transfer terminates
+     * this transfer and addresses the object named in the new request
+     */
+    if ((srv->Obj != 0) &&
+        (((cmd & 0xF0) == 0x20) ||
+         ( cmd         == 0x40) ||
+         ((cmd & 0xF9) == 0xC0) ||
+         ((cmd & 0xE3) == 0xA0))) {
+        COSdoAbortReq(srv);
+        srv->Idx = CO_GET_WORD(srv->Frm, 1);
+        srv->Sub = CO_GET_BYTE(srv->Frm, 3);
+    }
+
     /* expedited transfer */
     if ((cmd & 0xF2) == 0x22) {
         result = COSdoGetObject(srv, CO_SDO_WR);
